@@ -134,6 +134,14 @@ func checkAgainstReference(rc *core.RunCtx, cfg Cfg, out *Out) (ref *refexec.Res
 		return nil, false
 	}
 	ref = Reference(out)
+	if out.StockRecover {
+		// recovered panics carry gqlgen's stock message, at the path of the panicking position
+		for i, e := range ref.Errors {
+			if strings.HasPrefix(e.Class, "P:") || e.Class == "M:panic" || e.Class == "A:panic" {
+				ref.Errors[i].Class = "gqlgen"
+			}
+		}
+	}
 	if got, want := p.Data.Canon(), ref.Data.Canon(); got != want {
 		rc.Fail("data-mismatch", dataSite(want, got), "variant=%s sched=%s op=%q plan=%v\nexpected %s\ngot      %s", cfg.Variant.Name, cfg.Sched, cfg.Op.Query, planDesc(cfg.Plan), want, got)
 		return ref, false
@@ -385,6 +393,10 @@ func runC04(rc *core.RunCtx) {
 	base.NullPM = []int{0, 100}[t.Choose(2, "nullpm")]
 	srv := NewServer(rc, v, base)
 	deferOp := hasDefer(op.Query)
+	srv.StockRecover = !deferOp && t.Bool(1, 8, "stock-recover")
+	if srv.StockRecover {
+		rc.W.Count("stock_recover_runs")
+	}
 	mk := func(plan *refexec.Plan) Cfg {
 		c := Cfg{Variant: v, Op: op, Plan: plan, Server: srv, Sched: Sched(t.Choose(int(NumScheds), "sched")), CancelAt: -1, ParkDir: t.Bool(1, 3, "parkdir")}
 		if !deferOp {
